@@ -1188,3 +1188,77 @@ func ruleC10TypeWalks(c *Ctx) {
 	c.R.Floor(rule, "element-type walks in the inference closure", n, 1)
 }
 
+
+func init() {
+	p := Properties["C10"]
+	p.Rules = append(p.Rules, Rule{"C10/prefix-slices-guarded", ruleC10PrefixSlices})
+}
+
+// x[:len(y)] panics when x is shorter than y. Where a slice expression takes its bound from the length of
+// another slice (the prefix of an index path, of a segment list), a comparison of the two lengths must guard it.
+func ruleC10PrefixSlices(c *Ctx) {
+	const rule = "C10/prefix-slices-guarded"
+	lenArg := func(v ssa.Value) ssa.Value {
+		if call, ok := v.(*ssa.Call); ok && core.CalleeKey(&call.Call) == "builtin.len" {
+			return call.Call.Args[0]
+		}
+		return nil
+	}
+	same := func(a, b ssa.Value) bool { return a == b || sharesSource(a, b) || sameFieldLoad(a, b) }
+	n := 0
+	for _, fn := range c.P.Funcs {
+		if !c.P.InPkg(fn) {
+			continue
+		}
+		core.EachInstr(fn, func(i ssa.Instruction) {
+			sl, ok := i.(*ssa.Slice)
+			if !ok {
+				return
+			}
+			for _, bound := range []ssa.Value{sl.High, sl.Low} {
+				y := lenArg(bound)
+				if bound == nil || y == nil || same(y, sl.X) {
+					continue
+				}
+				if _, isSlice := sl.X.Type().Underlying().(*types.Slice); !isSlice {
+					if _, isStr := sl.X.Type().Underlying().(*types.Basic); !isStr {
+						continue
+					}
+				}
+				n++
+				guarded := false
+				for _, g := range guardsOf(sl) {
+					bo, ok := g.Cond.(*ssa.BinOp)
+					if !ok {
+						continue
+					}
+					lx, ly := lenArg(bo.X), lenArg(bo.Y)
+					if lx == nil || ly == nil {
+						continue
+					}
+					op := bo.Op
+					switch {
+					case same(lx, sl.X) && same(ly, y):
+					case same(ly, sl.X) && same(lx, y):
+						op = map[token.Token]token.Token{token.LSS: token.GTR, token.GTR: token.LSS, token.LEQ: token.GEQ, token.GEQ: token.LEQ, token.EQL: token.EQL, token.NEQ: token.NEQ}[op]
+					default:
+						continue
+					}
+					if !g.Pol {
+						op = map[token.Token]token.Token{token.LSS: token.GEQ, token.GTR: token.LEQ, token.LEQ: token.GTR, token.GEQ: token.LSS, token.EQL: token.NEQ, token.NEQ: token.EQL}[op]
+					}
+					// now: len(x) op len(y) holds
+					if op == token.GEQ || op == token.GTR || op == token.EQL {
+						guarded = true
+					}
+				}
+				c.R.Check(guarded, rule, fmt.Sprintf("%s:slice-to-len#%d", core.FuncName(fn), n), c.pos(sl), "the sliced value is known to be at least as long as the slice whose length bounds it",
+					"a slice expression is bounded by the length of another slice without a preceding comparison of the two lengths: it panics (slice bounds out of range) when the sliced value is the shorter one, e.g. a field at a smaller embedding depth than the path it is compared with")
+			}
+		})
+	}
+	if n == 0 {
+		c.R.OK(rule, "none", "", "no slice expression in the package is bounded by the length of another slice")
+	}
+}
+
